@@ -80,7 +80,8 @@ def random_trace(rng, tls, nconn, steps):
     def outc(kind):
         r = rng.random()
         if r < 0.25:
-            return ["fault", rng.choice(names)]
+            # a server side handshake can also fail with any other TLS error: aborted just the same
+            return ["fault", rng.choice(names + (["SSLERR", "SSLERR"] if kind == "hs" else []))]
         if kind == "tail":
             return rng.choice([["block"], ["block"], ["eof"]])
         if kind == "hs":
